@@ -21,6 +21,15 @@ CHECKS = {
  "C20": ("differential monitor against encoding/json over run-time synthesised struct types",
          "GetDumpStructStr is run on random values of random reflect.StructOf types (empty structs, unexported first/all fields, nested pointers, slices, arrays, string- and integer-keyed maps, nil at every level); the output must be valid JSON and decode to the same document as the standard encoding after the documented deviations, numbers compared exactly.",
          "encoding/json is the trusted reference; strings without characters needing escapes; float32 restricted to multiples of 1/8; embedded fields, []byte and multi-level pointers excluded.", "§3 C20"),
+ "C06": ("before/after file monitor: independent tag merger (go/parser + hand-written scanner) + byte comparison outside tag literals",
+         "Generated Go files of seven shape classes are processed by the library entry points and by the freshly built CLI (-f, -d, -p); for every annotated field the output's ordered key/value list must equal the independently computed merge (existing keys in place, overridden values, new keys appended, no duplicates), every byte outside the annotated fields' tag literals must be unchanged and the output must parse.",
+         "go/parser is trusted; domain limited as the property states (backquoted conventional tags, one trailing comment, top-level declarations; grouped declarations may be processed or not).", "§3 C06"),
+ "C07": ("byte-equality monitor over repeated injector runs (histories mixing library, -f, -d, -p)",
+         "The C06 corpus plus annotation-free files is processed 2-5 times with randomly mixed entry points; the bytes after run n+1 must equal those after run n, and annotation-free files must never change. The check is vacuous-proofed by requiring that >=90% of annotated files were actually modified by run 1.",
+         "Idempotence is judged independently of correctness; SHA/bytes comparison only.", "§3 C07"),
+ "C19": ("fault-injected directory workloads against the built CLI; snapshot comparison + C06 oracle per processable file",
+         "Directories mixing processable files with syntactically broken, truncated, empty and binary .go files, parseable-but-awkward files (no tag literal, malformed @tag, grouped/local/generic types, interpreted/empty literals), non-Go files, sub-directories and a directory named x.go are processed with -f/-d/-p/-p '*'; exit status and panic text are observed, unprocessable files must be byte-identical and every parseable file must equal the documented merge (so a crash or early stop that leaves later files un-injected is detected).",
+         "Faults are file-content faults (no I/O error injection); files in sub-directories are only required not to be corrupted.", "§3 C19"),
  "C09": ("online reference-model monitor, bounded-exhaustive operation sequences + long random sequences",
          "The real LRUCache is stepped in lock-step with a 30-line reference LRU; return value, Len, removal-callback log and full recency order (Dump) are compared after every single operation. All sequences up to the length bound over a 10-letter alphabet on capacities 0..4 are enumerated completely; long random sequences cross the map-rebuild threshold thousands of times.",
          "Trusts the reference model's reading of the statement (Store on a live key replaces and touches, no callback on replacement); sequences longer than the bound are sampled, not enumerated.", "§3 C09"),
